@@ -1,8 +1,41 @@
 (* C11 - a textual description defines exactly the grammar its syntax denotes (statements; proofs in DescriptionProofs.v) *)
-From YV Require Import Prelude Generated GeneratedChecks Description.
+From YV Require Import Prelude Generated GeneratedChecks Description DescriptionProofs.
 Local Open Scope Z_scope.
 
 (* the first implicit code is 256 and the counter is not overwritten before its first use (facts of sgramm.y) *)
 Theorem C11_implicit_codes_start : implicit_code_start = 256 /\ implicit_code_clobbered = false.
 Proof. vm_compute. auto. Qed.
 Print Assumptions C11_implicit_codes_start.
+
+(* "TERM-declared identifiers are terminals with their explicit code or distinct
+   free codes from 256 upwards in order of appearance": explicit codes are kept;
+   a terminal without code gets a code not below the start value that no
+   terminal holds explicitly, and the implicit codes strictly increase in order
+   of appearance. *)
+Theorem C11_codes_assigned : forall ts used next,
+  let out := assign_codes used next ts in
+  map fst out = map fst ts /\
+  Forall2 (fun t o => if implicit t then next <= snd o /\ ~ In (snd o) used else snd o = snd t) ts out /\
+  (forall i j ti tj oi oj, (i < j)%nat -> nth_error ts i = Some ti -> nth_error ts j = Some tj ->
+     nth_error out i = Some oi -> nth_error out j = Some oj -> implicit ti = true -> implicit tj = true -> snd oi < snd oj).
+Proof. exact assign_codes_spec. Qed.
+Print Assumptions C11_codes_assigned.
+
+(* with [used] = the explicit codes of the description (as desc_model passes them): an implicit code
+   differs from the code of every other terminal *)
+Theorem C11_implicit_codes_fresh : forall ts next,
+  let used := flat_map (fun t => if (snd t <? 0)%Z then [] else [snd t]) ts in
+  let out := assign_codes used next ts in
+  forall i ti oi, nth_error ts i = Some ti -> nth_error out i = Some oi -> implicit ti = true ->
+  next <= snd oi /\
+  (forall j tj oj, j <> i -> nth_error ts j = Some tj -> nth_error out j = Some oj -> snd oj <> snd oi).
+Proof. exact implicit_codes_fresh. Qed.
+Print Assumptions C11_implicit_codes_fresh.
+
+(* "a repeated declaration with the same code is harmless": duplicate elimination keeps one entry per
+   name - exactly the names that occur - and extends what it has already kept *)
+Theorem C11_duplicates_eliminated : forall ts seen out, dedupe_terms seen ts = Some out ->
+  NoDup (map fst seen) -> NoDup (map fst out) /\ (exists more, out = seen ++ more) /\
+  (forall nm, In nm (map fst out) <-> In nm (map fst seen) \/ In nm (map fst ts)).
+Proof. exact dedupe_names. Qed.
+Print Assumptions C11_duplicates_eliminated.
